@@ -21,25 +21,24 @@ Theorem C11_tables_total : forall c,
   (exists d, assoc (variant_name c) bn254_dispatch = Some d /\
              match d with Some arr => assoc arr const_arrays <> None | None => True end) /\
   bn254_exact_match = true /\
-  from_str_normaliser = "to_uppercase"%string /\
+  from_str_normaliser = "to_ascii_uppercase"%string /\
   Forall (fun e => Z.of_nat (length (snd (snd e))) = fst (snd e)) const_arrays.
 Proof. exact tables_total. Qed.
 Print Assumptions C11_tables_total.
 
-(* the strict reading of the Rust sources (Gen.CurveTables.source_shape): the
-   reader reports exactly the anchored items and file inventories of
-   Spec.CurvesSpec.anchored_items, and the WHOLE token stream of each matched
-   its template - no extra statement, early return, conjunct or changed
-   operator anywhere in the functions the tables are read from; the decimal
-   literals of Curve::prime() are the executed primes and prime_size() is the
-   bit length of the stored prime *)
-Theorem C11_sources_recognised :
-  map fst source_shape = anchored_items /\
-  Forall (fun e => snd e = true) source_shape /\
+(* the decimal literals the reader finds in Curve::prime() are the EXECUTED
+   primes, and the executed prime_size() is the bit length of the executed prime.
+   (Third audit: the former obligation C11_sources_recognised also re-read, inside
+   Coq, the booleans the Python source reader writes into Gen.CurveTables
+   .source_shape; that is a check of the reader's output, not a statement about
+   the code - it is now the lemma Proofs.CurvesProofs.reader_matched_every_item,
+   no obligation, and the run reports an unmatched item as a broken
+   correspondence by itself.) *)
+Theorem C11_prime_literals_are_executed_primes :
   (forall c, assoc (variant_name c) source_prime_literals = Some (prime c)) /\
   (forall c, prime_size c = bit_size (prime c)).
-Proof. exact sources_recognised. Qed.
-Print Assumptions C11_sources_recognised.
+Proof. exact prime_literals_are_executed_primes. Qed.
+Print Assumptions C11_prime_literals_are_executed_primes.
 
 (* for every curve and EVERY name: the code's membership test answers exactly
    what the documentation table (with Circomlib's spelling) marks *)
@@ -78,9 +77,10 @@ Proof. exact primes_are_documented. Qed.
 Print Assumptions C11_primes_are_documented.
 
 (* Num2Bits(n) / Bits2Num(n) under the default curve: safe iff n < 254, for
-   every n (prime_size Bn254 = 254 is computed from the regenerated prime) *)
+   every integer n (prime_size Bn254 = 254 is computed from the regenerated
+   prime); third audit: no hypothesis on n is left *)
 Theorem C11_num2bits_guard_exact : forall tname n,
-  In tname ["Num2Bits"; "Bits2Num"]%string -> 0 <= n ->
+  In tname ["Num2Bits"; "Bits2Num"]%string ->
   (num2bits_flagged Bn254 tname (VField n) = Some false <-> n < 254).
 Proof. exact num2bits_guard_exact. Qed.
 Print Assumptions C11_num2bits_guard_exact.
@@ -118,8 +118,10 @@ Proof. exact nonstrict_only_default_curve. Qed.
 Print Assumptions C11_nonstrict_only_default_curve.
 
 (* LessThan: Num2Bits(k) counts as a range check exactly when every k-bit value
-   is non-negative in the documented field, for every curve and EVERY k *)
-Theorem C11_lessthan_guard_exact : forall c k, 0 <= k ->
+   is non-negative in the documented field, for every curve and EVERY integer k
+   (third audit: the hypothesis 0 <= k is gone - for a negative k both sides hold,
+   2^k being 0 in Z; a value of the tool is a field element and never negative) *)
+Theorem C11_lessthan_guard_exact : forall c k,
   (lessthan_range_checked c k = true <-> 2 ^ k - 1 <= doc_prime c / 2).
 Proof. exact lessthan_guard_exact. Qed.
 Print Assumptions C11_lessthan_guard_exact.
@@ -132,7 +134,6 @@ Print Assumptions C11_lessthan_non_constant_not_checked.
 (* the pass over a whole definition never panics and reports exactly the
    LessThan inputs that no Num2Bits(k) with 2^k - 1 <= p/2 is also fed with *)
 Theorem C11_lessthan_reports_exact : forall c prog,
-  (forall v k, In (INum2Bits v (VField k)) (collected_inputs prog) -> 0 <= k) ->
   exists vs, lessthan_reports c prog = Ok vs /\
   forall v, In v vs <->
     (In (ILessThan v) (collected_inputs prog) /\
@@ -140,23 +141,37 @@ Theorem C11_lessthan_reports_exact : forall c prog,
 Proof. exact lessthan_reports_exact. Qed.
 Print Assumptions C11_lessthan_reports_exact.
 
-(* curve names: for every ASCII string, accepted as curve c exactly when it
-   equals the documented name of c up to the case of ASCII letters *)
-Theorem C11_curve_names_case_insensitive : forall s c, ascii_only s = true ->
-  (parse_curve s = Accepted c <-> same_ignoring_case s (curve_doc_name c) = true).
+(* curve names: for EVERY string (a Coq string is the byte sequence of the Rust
+   &str, bytes >= 128 included; no hypothesis on the string), accepted as curve
+   c exactly when it equals the documented name of c up to the case of ASCII
+   letters.  parse_curve models the normaliser the strict reader finds in
+   Curve::from_str: `to_ascii_uppercase` on the current tree (third audit:
+   repaired in /repo), and `to_uppercase` (Unicode) faithfully as well - under
+   that one this theorem is false and its proof breaks: the Example
+   C11_witnesses has three accepted spellings that are no case variants *)
+Theorem C11_curve_names_case_insensitive : forall s c,
+  parse_curve s = Accepted c <-> same_ignoring_case s (curve_doc_name c) = true.
 Proof. exact curve_names_case_insensitive. Qed.
 Print Assumptions C11_curve_names_case_insensitive.
 
-(* ... and nothing else is accepted *)
-Theorem C11_nothing_else_accepted : forall s, ascii_only s = true ->
-  (parse_curve s = Rejected <-> forall c, same_ignoring_case s (curve_doc_name c) = false).
+(* ... and nothing else is accepted (in particular the model never answers
+   Unmodelled) *)
+Theorem C11_nothing_else_accepted : forall s,
+  parse_curve s = Rejected <-> forall c, same_ignoring_case s (curve_doc_name c) = false.
 Proof. exact nothing_else_accepted. Qed.
 Print Assumptions C11_nothing_else_accepted.
 
+(* no spelling with a byte outside ASCII is accepted *)
+Theorem C11_non_ascii_rejected : forall s, ascii_only s = false -> parse_curve s = Rejected.
+Proof. exact non_ascii_rejected. Qed.
+Print Assumptions C11_non_ascii_rejected.
+
 (* the accept/reject table obtained by executing Curve::from_str on every case
-   variant of the three names and on the near misses agrees with the model *)
+   variant of the three names, on the ASCII near misses and on the non-ASCII
+   near misses (dotless i, long s, Kelvin sign, fullwidth letters, combining
+   marks, ligatures, ...) agrees with the model *)
 Theorem C11_curve_name_table_agrees : forall s r, In (s, r) curve_name_table ->
-  ascii_only s = true /\ parse_curve s = decode_result r.
+  parse_curve s = decode_result r.
 Proof. exact curve_name_table_agrees. Qed.
 Print Assumptions C11_curve_name_table_agrees.
 
@@ -172,7 +187,7 @@ Proof. exact cli_help_and_default. Qed.
 Print Assumptions C11_cli_help_and_default.
 
 (* non-vacuity: boundary instances on both sides of every threshold, a program
-   meeting the hypothesis of C11_lessthan_reports_exact, accepted and rejected
+   with a reported and a range-checked LessThan input, accepted and rejected
    spellings *)
 Example C11_witnesses :
   flagged Bls12_381 "Sign" = true /\ flagged Goldilocks "Bits2Point_Strict" = true /\
@@ -189,8 +204,11 @@ Example C11_witnesses :
      SAssign TComponent "m" [] (RCall (mkCall "Num2Bits" [VField 62]));
      SConstrain "m" [AField "in"] "b";
      SAssign TComponent "lt" [] (RCall (mkCall "LessThan" [VField 8]));
-     SConstrain "lt" [AField "in"; AIndex 0] "a";
-     SConstrain "lt" [AField "in"; AIndex 1] "b"] = Ok ["a"%string] /\
+     SConstrain "lt" [AField "in"; AIndex "(n 0)"] "a";
+     SConstrain "lt" [AField "in"; AIndex "(n 1)"] "b"] = Ok ["a"%string] /\
   parse_curve "bLs12_381" = Accepted Bls12_381 /\ parse_curve "BLS12-381" = Rejected /\
-  ascii_only "bLs12_381" = true.
+  ascii_only "goldılocks" = false /\
+  (* the previous normaliser (str::to_uppercase) accepted spellings that are no case variants *)
+  parse_curve_unicode "goldılocks" = Accepted Goldilocks /\ parse_curve "goldılocks" = Rejected /\
+  parse_curve_unicode "blſ12_381" = Accepted Bls12_381 /\ parse_curve "blſ12_381" = Rejected.
 Proof. vm_compute. repeat split; reflexivity. Qed.
